@@ -157,7 +157,7 @@ impl Scheduler for PbDfs {
 // scenarios
 
 pub struct Shared {
-    pub exprs: Vec<Arc<Expression<'static>>>,
+    pub exprs: Vec<Result<Arc<Expression<'static>>, String>>,
     pub inputs: Vec<Rcvar>,
     pub input_images: Vec<Value>,
 }
@@ -202,6 +202,14 @@ fn custom_runtime() -> &'static Runtime {
                 let inner = custom_runtime().compile(&format!("nest(`{}`)", n - 1))?;
                 inner.search(&args[0])
             }));
+            // a CustomFunction (declared signature + closure) that yields while it is running
+            rt.register_function("sigyield", Box::new(jmespath::functions::CustomFunction::new(
+                jmespath::functions::Signature::new(vec![jmespath::functions::ArgumentType::Any], None),
+                Box::new(|args: &[Rcvar], _: &mut Context<'_>| {
+                    hook("call");
+                    Ok(args[0].clone())
+                }),
+            )));
             rt.register_function("failing", Box::new(|args: &[Rcvar], ctx: &mut Context<'_>| {
                 hook("call");
                 let _ = args;
@@ -271,6 +279,29 @@ pub fn scenarios(tier: Tier) -> Vec<Scenario> {
         inputs: vec![json!({"a": {"a": 1}})],
         threads: if tier == Tier::Thorough { vec![vec![Op::Search(0, 0)], vec![Op::Search(1, 0)], vec![Op::Search(0, 0)]] } else { vec![vec![Op::Search(0, 0)], vec![Op::Search(1, 0)]] },
     });
+    // two threads inside the same CustomFunction object of a shared runtime, and nested calls of it
+    v.push(Scenario {
+        max_bound: None,
+        name: "custom-function-object-shared",
+        exprs: vec!["sigyield(s)", "[sigyield(b), sigyield(sigyield(s))]"],
+        custom: vec![0, 1],
+        inputs: d(),
+        threads: vec![vec![Op::Search(0, 0), Op::Search(1, 0)], vec![Op::Search(1, 0), Op::Search(0, 0)]],
+    });
+    // deep expressions *compiled* inside the threads (parsers running side by side)
+    lazy_static::lazy_static! {
+        static ref DEEPC1: String = format!("{}a{}", "(".repeat(200), ")".repeat(200));
+        static ref DEEPC2: String = format!("{}a{}", "[".repeat(180), "]".repeat(180));
+        static ref DEEPC3: String = format!("{}a", "!".repeat(150));
+    }
+    v.push(Scenario {
+        max_bound: Some(1),
+        name: "compile-deep-expressions-overlap",
+        exprs: vec![],
+        custom: vec![],
+        inputs: vec![json!({"a": 1})],
+        threads: vec![vec![Op::CompileSearch(DEEPC1.as_str(), 0), Op::CompileSearch(DEEPC3.as_str(), 0)], vec![Op::CompileSearch(DEEPC2.as_str(), 0), Op::CompileSearch(DEEPC1.as_str(), 0)]],
+    });
     // searches that legitimately re-enter search (through a custom function), overlapping at their deepest point:
     // any per-process accounting of searches in flight shows up
     v.push(Scenario {
@@ -295,7 +326,7 @@ fn build_shared(s: &Scenario) -> Arc<Shared> {
         .exprs
         .iter()
         .enumerate()
-        .map(|(i, e)| Arc::new(if s.custom.contains(&i) { custom_runtime().compile(e).unwrap() } else { jmespath::compile(e).unwrap() }))
+        .map(|(i, e)| (if s.custom.contains(&i) { custom_runtime().compile(e) } else { jmespath::compile(e) }).map(Arc::new).map_err(|e| format!("shared expression did not compile: {:?}", e.reason)))
         .collect();
     Arc::new(Shared { exprs, inputs: s.inputs.iter().map(value_to_var).collect(), input_images: s.inputs.clone() })
 }
@@ -306,7 +337,10 @@ fn run_op(sh: &Shared, op: &Op) -> String {
         Err(e) => format!("err {:?}", e),
     };
     match op {
-        Op::Search(i, j) => show(sh.exprs[*i].search(&sh.inputs[*j])),
+        Op::Search(i, j) => match &sh.exprs[*i] {
+            Ok(x) => show(x.search(&sh.inputs[*j])),
+            Err(e) => e.clone(),
+        },
         Op::CompileSearch(e, j) => match jmespath::compile(e) {
             Ok(x) => show(x.search(&sh.inputs[*j])),
             Err(e) => format!("compile err {:?}", e),
@@ -1067,7 +1101,7 @@ pub fn run(tier: Tier, obligations: u64) -> i32 {
     rep.guard("pre-empting schedules were explored", st.nontrivial > 100);
     rep.guard("fresh-process first-use schedules were explored", fu > 5);
     rep.guard("type-level obligations discharged", obligations > 0);
-    rep.rule = "leg 1 (compile time): Send + Sync obligations on the public types under --features sync and the library under -F unsafe_code; leg 2: for each scenario (2-3 threads on shared Arc<Expression> / shared Arc inputs, chosen to collide: failing calls at different offsets, by-functions with nested calls, a shared literal, a custom runtime whose functions yield, compile inside threads, deep expressions whose evaluations overlap) every schedule with at most c pre-emptions for c = 0,1,2(,3) over the hook points {search-enter, interpret, call, validate, error, get_function, compile}, plus unbounded DFS over the coarse points {search-enter, call, error}; first use of DEFAULT_RUNTIME: one fresh process per schedule with bounded deviations; leg 2c (intercepted synchronisation): the harness built against a rewritten copy of the crate in which std::sync / std::thread / thread_local! resolve to shuttle's types, so that every lock, atomic and Once operation inside the crate is a scheduling point -- 14 scenarios (one thread re-compiling known expressions while another compiles 40 / 300 new ones, concurrent compiles of different long expressions, to_number on different long strings, sorts / by-functions on shared input, compiles after 127 / 255 distinct expressions were compiled (bounded caches), the hook-level scenarios again incl. searches that re-enter search 40 levels deep), every schedule with at most d deviations from staying on the running thread, one fresh process per schedule. Oracle: every thread's observations (values / full error structs) equal the sequential run; inputs unchanged. states = executions; transitions = scheduling points hit; non-trivial = executions with at least one pre-emption allowed".into();
+    rep.rule = "leg 1 (compile time): Send + Sync obligations on the public types under --features sync and the library under -F unsafe_code; leg 2: for each scenario (2-3 threads on shared Arc<Expression> / shared Arc inputs, chosen to collide: failing calls at different offsets, by-functions with nested calls, a shared literal, a custom runtime whose functions yield, compile inside threads, deep expressions whose evaluations overlap) every schedule with at most c pre-emptions for c = 0,1,2(,3) over the hook points {search-enter, interpret, call, validate, error, get_function, compile}, plus unbounded DFS over the coarse points {search-enter, call, error}; first use of DEFAULT_RUNTIME: one fresh process per schedule with bounded deviations; leg 2c (intercepted synchronisation): the harness built against a rewritten copy of the crate in which std::sync / std::thread / thread_local! resolve to shuttle's types, so that every lock, atomic and Once operation inside the crate is a scheduling point -- 16 scenarios (deep expressions compiled side by side, two threads inside one CustomFunction object, one thread re-compiling known expressions while another compiles 40 / 300 new ones, concurrent compiles of different long expressions, to_number on different long strings, sorts / by-functions on shared input, compiles after 127 / 255 distinct expressions were compiled (bounded caches), the hook-level scenarios again incl. searches that re-enter search 40 levels deep), every schedule with at most d deviations from staying on the running thread, one fresh process per schedule. Oracle: every thread's observations (values / full error structs) equal the sequential run; inputs unchanged. states = executions; transitions = scheduling points hit; non-trivial = executions with at least one pre-emption allowed".into();
     rep.bounds = json!({"preemption_bounds": bounds, "scenarios": table, "intercepted": intercept_table});
     rep.assumptions.extend(vec![
         "leg 2: steps between two hook points are atomic to the explorer; leg 2c: steps between two synchronisation operations of the crate are; Arc counts are std's and memory orderings weaker than sequential consistency are not modelled by shuttle".into(),
